@@ -189,6 +189,64 @@ def gen_problem(rng, max_pkgs=12):
     return {"source": source, "installed": installed, "targets": targets}
 
 
+def _a(name, blk="", op="", ver=None, slot=None):
+    return {"blk": blk, "op": op, "name": name, "ver": ver, "slot": slot}
+
+
+def gen_multislot_blocker_problem(rng):
+    """Directed family (kept random in every free choice): a package installed in two or three slots at once, newer
+    versions of it in the repository, and a target that both depends on one slot of it and carries a blocker
+    with a version bound that matches installed members of several slots.  The blocker is reached when one of the
+    installed matches is already part of the plan, which is where the resolver has to look at the others."""
+    names = rng.sample(NAMES, 4)
+    lib, tgt, mid, extra = names
+    slots = ["0", "1", "2"][:rng.choice([2, 2, 3])]
+    # strictly increasing versions, partitioned over the slots: each slot gets an installed version and maybe
+    # a newer one in the repository
+    ladder = ["1", "1-r1", "1.5", "2", "2-r2", "3", "10"]
+    installed, source = [], []
+    picks = sorted(rng.sample(range(len(ladder) - 1), len(slots)))
+    rng.shuffle(slots)
+    inst_by_slot = {}
+    for slot, i in zip(slots, picks):
+        inst_by_slot[slot] = ladder[i]
+        installed.append({"name": lib, "ver": ladder[i], "slot": slot, "deps": {}})
+        if rng.random() < 0.6:
+            source.append({"name": lib, "ver": ladder[i], "slot": slot, "deps": {}})
+    top = ladder[max(picks) + 1:]
+    for slot in slots:
+        if rng.random() < 0.75 and top:
+            v = rng.choice(top)
+            if not any(s["ver"] == v for s in source):
+                source.append({"name": lib, "ver": v, "slot": slot, "deps": {}})
+    dep_slot = rng.choice(slots)
+    bound = rng.choice(ladder[min(picks) + 1:])
+    blk = _a(lib, blk=rng.choice(["!", "!", "!!"]), op=rng.choice(["<", "<", "<="]), ver=bound)
+    if rng.random() < 0.2:
+        blk = _a(lib, blk=rng.choice(["!", "!!"]), slot=rng.choice(slots))
+    dep = _a(lib, slot=dep_slot) if rng.random() < 0.8 else _a(lib, op=">=", ver=inst_by_slot[dep_slot], slot=dep_slot)
+    deps = {}
+    deps.setdefault(rng.choice(DEP_CLASSES[:3]), []).append(dep)
+    bcls = rng.choice(DEP_CLASSES)
+    carrier = tgt
+    if rng.random() < 0.3:
+        # the blocker sits one level down, on a package the target pulls in afterwards
+        carrier = mid
+        deps.setdefault(rng.choice(["RDEPEND", "PDEPEND"]), []).append(_a(mid))
+        source.append({"name": mid, "ver": "1", "slot": "0", "deps": {bcls: [blk]}})
+    else:
+        deps.setdefault(bcls, []).append(blk)
+    source.append({"name": tgt, "ver": rng.choice(["1", "2"]), "slot": "0", "deps": deps})
+    if rng.random() < 0.3:
+        installed.append({"name": extra, "ver": "1", "slot": "0", "deps": {"RDEPEND": [_a(lib, slot=rng.choice(slots))]}})
+        source.append({"name": extra, "ver": "1", "slot": "0", "deps": {"RDEPEND": [_a(lib, slot=rng.choice(slots))]}})
+    rng.shuffle(source)
+    targets = [_a(tgt)]
+    if rng.random() < 0.25:
+        targets.insert(0, _a(lib, slot=dep_slot))
+    return {"source": source, "installed": installed, "targets": targets}
+
+
 def describe(problem):
     """Compact human-readable rendering for evidence samples."""
     def pk(s):
